@@ -702,6 +702,9 @@ func (p *Path) concreteInt(v Value, what string) int64 {
 func (p *Path) indexCheck(idx *Term, n int, t types.Type) int {
 	if idx.IsConst() {
 		i := idx.SVal()
+		if b, ok := typeBasic(t); ok && b.Info()&types.IsUnsigned != 0 && idx.w != SortInt {
+			i = int64(idx.val) // an unsigned index (e.g. uint8 255 into a 256-entry table) is not sign-extended
+		}
 		if i < 0 || i >= int64(n) {
 			panic(targetPanic{mkExtErr(fmt.Sprintf("runtime error: index out of range [%d] with length %d", i, n))})
 		}
@@ -787,4 +790,12 @@ func (e *Engine) fnInfoOf(fn *ssa.Function) *fnInfo {
 	}
 	v, _ := e.fnInfos.LoadOrStore(fn, info)
 	return v.(*fnInfo)
+}
+
+func typeBasic(t types.Type) (*types.Basic, bool) {
+	if t == nil {
+		return nil, false
+	}
+	b, ok := t.Underlying().(*types.Basic)
+	return b, ok
 }
